@@ -1217,7 +1217,11 @@ class Explorer:
         if any(v != "unsat" for (_, v, _, _, _, _) in st.results):
             return          # only paths on which everything was discharged are compared
         st.solver.set("timeout", 1500)
-        r = st.solver.check()
+        # small integers first (levels, depths, counts): the concrete run then stays small and well conditioned
+        small = [z3.And(c >= -3, c <= 3) for c in st.inputs.values() if z3.is_int(c)]
+        r = st.solver.check(*small) if small else z3.unknown
+        if r != z3.sat:
+            r = st.solver.check()
         if r != z3.sat:
             st.solver.set("timeout", FEAS_TIMEOUT_MS)
             done["skipped"] += 1
